@@ -32,30 +32,30 @@ theorem quic_identity (dstID proven : KeyId) (allow : KeyId → Bool) :
     sends), the source identity attached to delivered application data is the channel's remote key, that key
     passed the predicate the channel was created with (the whitelist for contacts the application did not
     address itself; the addressed identity otherwise), and the delivering session is with that key. -/
-theorem ke_src_is_accepted_key (key : KeyId) (whitelist : KeyId → Bool) (how : Created) (ra ka : Nat) (lt : IdLt)
+theorem ke_src_is_accepted_key (key : KeyId) (whitelist : KeyId → Bool) (how : Created) (ra ka ht : Nat) (lt : IdLt)
     (ops : List COp) (w : Wire) (eph now : Nat) (p : Bytes) :
-    let c := (Chan.fresh key (acceptOf whitelist how) ra ka).run lt ops
+    let c := (Chan.fresh key (acceptOf whitelist how) ra ka ht).run lt ops
     let c' := (c.step lt (.deliver w eph now)).1
     (c.step lt (.deliver w eph now)).2.app = some p →
     ∃ k, keSrcID c' = some k ∧ acceptOf whitelist how k = true ∧
       ∃ e, (c'.cur = some e ∨ c'.prev = some e) ∧ e.sess.rKey = some k :=
-  Secure.ke_src_is_accepted_key key whitelist how ra ka lt ops w eph now p
+  Secure.ke_src_is_accepted_key key whitelist how ra ka ht lt ops w eph now p
 
 /-- ⊢ p2pkeswarm, outbound: a Tell to identity X at some transport address encrypts only on a channel whose
     remote key is X — whether the channel was created by this Tell or earlier by an inbound contact. -/
-theorem ke_wrong_identity_never_receives (key : KeyId) (whitelist : KeyId → Bool) (how : Created) (ra ka : Nat)
+theorem ke_wrong_identity_never_receives (key : KeyId) (whitelist : KeyId → Bool) (how : Created) (ra ka ht : Nat)
     (lt : IdLt) (ops : List COp) (dstID : KeyId) (p : Bytes) (now : Nat) (w : Wire) :
-    let c := (Chan.fresh key (acceptOf whitelist how) ra ka).run lt ops
+    let c := (Chan.fresh key (acceptOf whitelist how) ra ka ht).run lt ops
     keMayUse dstID c = true → (c.step lt (.send p now)).2.sent = [w] →
     ∃ e, (c.expire now).cur = some e ∧ e.sess.rKey = some dstID :=
-  Secure.ke_wrong_identity_never_receives key whitelist how ra ka lt ops dstID p now w
+  Secure.ke_wrong_identity_never_receives key whitelist how ra ka ht lt ops dstID p now w
 
 /-- ⊢ whitelist respected: on a channel created by an inbound contact, a peer key the whitelist rejects never
     gets application data delivered and never becomes the remote key. -/
-theorem whitelist_respected (key : KeyId) (whitelist : KeyId → Bool) (ra ka : Nat) (lt : IdLt) (ops : List COp)
+theorem whitelist_respected (key : KeyId) (whitelist : KeyId → Bool) (ra ka ht : Nat) (lt : IdLt) (ops : List COp)
     (k : KeyId) (hk : whitelist k = false) :
-    ((Chan.fresh key (acceptOf whitelist .inbound) ra ka).run lt ops).remoteKey ≠ some k :=
-  Secure.whitelist_respected key whitelist ra ka lt ops k hk
+    ((Chan.fresh key (acceptOf whitelist .inbound) ra ka ht).run lt ops).remoteKey ≠ some k :=
+  Secure.whitelist_respected key whitelist ra ka ht lt ops k hk
 
 -- non-vacuity: the history that confused the unrepaired server leaves the repaired one with the signer's key
 example : (SshSrv.run [.query 1, .query 2, .sign 1]).identity = some 1 ∧
